@@ -310,3 +310,44 @@ Print Assumptions C05_rekey_order_matters_refuted.
 
 Example C05_deletion_disks_example : ltac:(let t := type of pa_disks in exact t).
 Proof. exact pa_disks. Qed.
+
+(** *** BatchWithFlusher (Flusher.v: batch.go over a MemDB batch).  The wrapper that cuts the
+    writes of one operation into physical batches loses, duplicates and reorders nothing, and
+    after any number [i] of physical batches the database is the one reached by a PREFIX of the
+    operation's write list - the prefix ending at one of the cut positions the model computes
+    ([cut_positions], compared with the batches of the real library by [wsave]).  This is the
+    hypothesis under which the crash theorems above quantify over prefixes. *)
+From IAVL Require Flusher FlusherFacts.
+
+Theorem C05_flusher_loses_nothing :
+  forall (th : Z) (ops : list Flusher.bop), concat (Flusher.fl_batches th ops) = ops.
+Proof. exact FlusherFacts.fl_concat. Qed.
+Print Assumptions C05_flusher_loses_nothing.
+
+Theorem C05_crash_images_are_prefixes :
+  forall (th : Z) (ops : list Flusher.bop) (m : VMap.kvs) (i : nat),
+    exists n : nat,
+      In n (0%nat :: Flusher.cut_positions th ops ++ [length ops]) /\
+      Flusher.kv_apply_batches m (firstn i (Flusher.fl_batches th ops)) =
+      Flusher.kv_apply_ops m (firstn n ops).
+Proof. exact FlusherFacts.fl_prefix_db_exists. Qed.
+Print Assumptions C05_crash_images_are_prefixes.
+
+Theorem C05_flush_threshold_irrelevant_for_the_result :
+  forall (th1 th2 : Z) (ops : list Flusher.bop) (m : VMap.kvs),
+    Flusher.kv_apply_batches m (Flusher.fl_batches th1 ops) =
+    Flusher.kv_apply_batches m (Flusher.fl_batches th2 ops).
+Proof. exact FlusherFacts.fl_threshold_independent. Qed.
+Print Assumptions C05_flush_threshold_irrelevant_for_the_result.
+
+Theorem C05_batches_are_maximal_and_bounded :
+  forall (th : Z) (ops : list Flusher.bop),
+    FlusherFacts.maximal th (Flusher.fl_batches th ops) /\
+    forall b, 0 <= th -> In b (Flusher.fl_batches th ops) -> length b <> 1%nat ->
+              Flusher.batch_size b <= th.
+Proof.
+  intros th ops. split.
+  - exact (FlusherFacts.fl_batch_maximal th ops).
+  - intros b. exact (FlusherFacts.fl_batch_bound th ops b).
+Qed.
+Print Assumptions C05_batches_are_maximal_and_bounded.
